@@ -10,6 +10,7 @@ label = level = n.
 """
 from . import mir
 from .base import inst, OK, VIOLATION, UNDECIDED, strip, some_payload
+from . import canon
 from .facts import CheckerError
 from .mir import show
 
@@ -63,6 +64,41 @@ def dim(fn, t, depth=0):
     if t[0] in ("gamma", "phi"):
         ds = {dim(fn, v, depth + 1) for _, v in t[2]}
         return ds.pop() if len(ds) == 1 else None
+    if t[0] == "field" and t[2] in ("0", "1") and isinstance(t[1], tuple):
+        # a component of an item of `X.enumerate()`: .0 is a position, .1 an element of X
+        item = strip(t[1])
+        if canon.is_payload(item) and mir.is_call(strip(item[1][1]), "next"):
+            it = strip(strip(item[1][1])[2][0])
+            if it[0] == "mutref":
+                for (h, l), init in fn.terms.mu_init.items():
+                    if l == it[1]:
+                        src = strip(init)
+                        while mir.is_call(src, "into_iter"):
+                            src = strip(src[2][0])
+                        if mir.is_call(src, "enumerate"):
+                            if t[2] == "0":
+                                return "Level"
+                            return elem_dim(fn, src[2][0], depth + 1)
+    return None
+
+
+def elem_dim(fn, t, depth=0):
+    """dimension of the elements an iterator term yields"""
+    t = strip(t)
+    if depth > 12 or not isinstance(t, tuple) or not t:
+        return None
+    if mir.is_call(t, "map") and len(t[2]) == 2:
+        prog = mir.CURRENT
+        r = canon.apply_closure(prog, t[2][1], ("elem",)) if prog is not None else None
+        if r is not None:
+            r = strip(r)
+            while isinstance(r, tuple) and r and r[0] == "cast":
+                r = strip(r[2])
+            if mir.is_call(r, "value") or mir.is_call(r, "value_usize"):
+                return "Label"
+        return None
+    if t[0] == "call" and t[1].name in ("iter", "into_iter", "copied", "cloned", "rev") and t[2]:
+        return elem_dim(fn, t[2][0], depth + 1)
     return None
 
 
@@ -122,6 +158,7 @@ def run(prog):
     pushes = [cs for cs in te.calls if cs.callee.name == "push"]
     ok_store = False
     loopvar = None
+    enum_item = None
     for (bb, pt, val, line) in st:
         idx = pt[2] if pt[0] == "index" else pt[2][1]
         # var_to_pos[order[i].value()] = i  with the same i on both sides
@@ -129,14 +166,23 @@ def run(prog):
         if dim(fn, idx) == "Label" and any(x[0] == "index" and strip(x[2]) == v for x in mir.subterms(idx)):
             ok_store = True
             loopvar = v
-    ok_push = any(dim(fn, cs.args[1]) == "Label" and (loopvar is None or any(
+        # enumerate form: for (pos, label) in order.iter().enumerate() { var_to_pos[label.value()] = pos; .. }
+        if v[0] == "field" and v[2] == "0" and "next(" in show(v[1]) and dim(fn, idx) == "Label" and \
+                any(x[0] == "field" and x[2] == "1" and x[1] == v[1] for x in mir.subterms(idx)):
+            ok_store = True
+            enum_item = v[1]
+    if enum_item is not None:
+        ok_push = any(any(x[0] == "field" and x[2] == "1" and x[1] == enum_item for x in mir.subterms(cs.args[1]))
+                      for cs in pushes if len(cs.args) == 2)
+    else:
+      ok_push = any(dim(fn, cs.args[1]) == "Label" and (loopvar is None or any(
         x[0] == "index" and strip(x[2]) == loopvar for x in mir.subterms(cs.args[1]))) for cs in pushes if len(cs.args) == 2)
     if not ok_store:
         swapped = [s_ for s_ in st if dim(fn, (s_[1][2] if s_[1][0] == "index" else s_[1][2][1])) != "Label" and dim(fn, s_[2]) == "Label"]
         errs.append("var_to_pos is written at a position with a label (var_to_pos[i] = order[i]): it becomes a copy of "
-                    "pos_to_var instead of its inverse" if swapped else "var_to_pos[label_i] = i not found")
+                    "pos_to_var instead of its inverse" if swapped else "?var_to_pos[label_i] = i not found")
     if not ok_push:
-        errs.append("pos_to_var.push(label_i) not found")
+        errs.append("?pos_to_var.push(label_i) not found")
     out.append(inst("VO", "%s:inverse-by-construction" % fn.npath, VIOLATION if errs else OK, fn, None,
                     "; ".join(errs) if errs else "var_to_pos[order[i]] = i and pos_to_var[i] = order[i]"))
     # new_last: the fresh variable is numbered by the *count* of variables (label = level = n)
